@@ -400,7 +400,7 @@ def run(ctx, chk, tier="quick"):
             chk.indeterminate("C13.O3", where_of(f, st), "result of get_series_time_offsets not unpacked into three names")
             continue
         ids_n, offs_n, map_n = [e.id for e in st.targets[0].elts]
-        series_arg = call[0].args[0].id if call[0].args and isinstance(call[0].args[0], ast.Name) else None
+        series_arg = call[0].args[0] if call[0].args else None
         _lineage_of_stored_rows(ctx, chk, f, flow, kind, tabs, ids_n, offs_n, map_n, series_arg)
     # ---- recession kind
     rec = ctx.func("recession.compute_offsets")
@@ -416,16 +416,21 @@ def run(ctx, chk, tier="quick"):
         chk.ob("C13.O2", ok, where_of(rec, kq.site.call), "recession series from zeta_interval WHERE %s" % expr_str(kq.site.stmt.where),
                "interval_type = 'interstorm'", key="compute_offsets|interval-kind", why="a rise entered in the recession curve reverses its slope")
         # series appended from the row's own epoch range
-        apps = [c for c in ast.walk(rec.node) if isinstance(c, ast.Call) and isinstance(c.func, ast.Attribute) and c.func.attr == "append"]
-        okp = False
-        if len(apps) == 1 and isinstance(apps[0].args[0], ast.Tuple) and len(apps[0].args[0].elts) == 2:
-            a0, a1 = apps[0].args[0].elts
+        rflow_ = Flow.of(rec)
+        gcall = [c for c in ast.walk(rec.node) if isinstance(c, ast.Call) and ctx.cg.resolve_callee(rec, c.func) == ["fit_offsets.get_series_time_offsets"]]
+        sp = _series_pair(ctx, rec, rflow_, gcall[0].args[0]) if len(gcall) == 1 and gcall[0].args else None
+        if sp is None:
+            chk.indeterminate("C13.O3", where_of(rec, rec.node), "the recession series are not built by appends in one loop over the intervals")
+        else:
             en_, ln_ = _series_arrays(ctx, rec)
-            okp = isinstance(a0, ast.Subscript) and isinstance(a1, ast.Subscript) and ast.unparse(a0.slice) == ast.unparse(a1.slice) \
-                and ast.unparse(a0.value) == en_ and ast.unparse(a1.value) == ln_
-        chk.ob("C13.O3", okp, where_of(rec, apps[0] if apps else rec.node), "series = %s" % (ast.unparse(apps[0].args[0]) if apps else "?"),
-               "(times, levels) of the same sample indices of the interval", key="compute_offsets|series",
-               why="levels taken with other indices than the times belong to a neighbour's samples")
+            a0, a1 = rflow_.expand(sp["x"], keep={en_, ln_}), rflow_.expand(sp["y"], keep={en_, ln_})
+            if not (isinstance(a0, ast.Subscript) and isinstance(a1, ast.Subscript)):
+                chk.indeterminate("C13.O3", where_of(rec, sp["x"]), "series = (%s, %s): not two subscripted arrays" % (ast.unparse(a0)[:60], ast.unparse(a1)[:60]))
+            else:
+                okp = ast.dump(a0.slice) == ast.dump(a1.slice) and ast.unparse(a0.value) == en_ and ast.unparse(a1.value) == ln_
+                chk.ob("C13.O3", okp, where_of(rec, sp["x"]), "series = (%s, %s)" % (ast.unparse(a0)[:80], ast.unparse(a1)[:80]),
+                       "(times, levels) of the same sample indices of the interval", key="compute_offsets|series",
+                       why="levels taken with other indices than the times belong to a neighbour's samples")
 
     # ------------------------------------------------------------ O3 grid-step lineage
     # zeta_grid.grid_interval_mm -> get_series_time_offsets(step) -> build_head_mapping(step) -> regrid(step)
@@ -553,6 +558,48 @@ def run(ctx, chk, tier="quick"):
 
 
 
+
+def _series_pair(ctx, f, flow, series_expr):
+    """The list handed to get_series_time_offsets as (row loop, x expr, y expr, {list: appended exprs}):
+       either one list of (x, y) tuples appended in the row loop, or zip(LX, LY) of two such lists."""
+    apps = [c for c in ast.walk(f.node) if isinstance(c, ast.Call) and isinstance(c.func, ast.Attribute) and c.func.attr == "append"
+            and isinstance(c.func.value, ast.Name) and len(c.args) == 1]
+    e = series_expr
+    while isinstance(e, ast.Call) and isinstance(e.func, ast.Name) and e.func.id in ("list", "tuple") and len(e.args) == 1:
+        e = e.args[0]
+    lists = []
+    if isinstance(e, ast.Name):
+        lists = [e.id]
+    elif isinstance(e, ast.Call) and isinstance(e.func, ast.Name) and e.func.id == "zip" and len(e.args) == 2 and all(isinstance(a, ast.Name) for a in e.args):
+        lists = [a.id for a in e.args]
+    if not lists:
+        return None
+    first = [c for c in apps if c.func.value.id == lists[0]]
+    if len(first) != 1:
+        return None
+    row_loop = None
+    for a in _anc(first[0]):
+        if isinstance(a, ast.For):
+            row_loop = a
+            break
+    if row_loop is None:
+        return None
+    appended = {}
+    for c in apps:
+        if is_ancestor(row_loop, c):
+            appended.setdefault(c.func.value.id, []).append((c.args[0], enclosing_stmt(c) in row_loop.body))
+    aligned = {k: v[0][0] for k, v in appended.items() if len(v) == 1 and v[0][1]}
+    if not all(l in aligned for l in lists):
+        return None
+    if len(lists) == 1:
+        t = aligned[lists[0]]
+        if not (isinstance(t, ast.Tuple) and len(t.elts) == 2):
+            return None
+        x, y = t.elts
+    else:
+        x, y = aligned[lists[0]], aligned[lists[1]]
+    return {"loop": row_loop, "x": x, "y": y, "appended": appended, "aligned": aligned, "lists": lists}
+
 def _lineage_of_stored_rows(ctx, chk, f, flow, kind, tabs, ids_n, offs_n, map_n, series_arg):
     """Every row written to <kind>_interval / <kind>_interval_zeta carries the start of the interval whose
     series has the id in scope, the offset at that id's position, the crossing paired with that id and the
@@ -564,21 +611,13 @@ def _lineage_of_stored_rows(ctx, chk, f, flow, kind, tabs, ids_n, offs_n, map_n,
     from ..idioms import index_lookup
 
     # --- the row loop and its lists
-    apps = [c for c in ast.walk(f.node) if isinstance(c, ast.Call) and isinstance(c.func, ast.Attribute) and c.func.attr == "append"
-            and isinstance(c.func.value, ast.Name) and len(c.args) == 1]
-    ser_app = [c for c in apps if c.func.value.id == series_arg]
-    row_loop = None
-    if len(ser_app) == 1:
-        for a in _anc(ser_app[0]):
-            if isinstance(a, ast.For):
-                row_loop = a
-                break
-    appended = {}
-    if row_loop is not None:
-        for c in apps:
-            if enclosing_stmt(c) in row_loop.body:
-                appended.setdefault(c.func.value.id, []).append(c.args[0])
-    aligned = {k: v[0] for k, v in appended.items() if len(v) == 1}
+    sp = _series_pair(ctx, f, flow, series_arg)
+    if sp is None:
+        chk.indeterminate("C13.O3", where_of(f, f.node), "the list of series handed to get_series_time_offsets is not built by appends in one loop over the intervals")
+        return
+    row_loop = sp["loop"]
+    appended = {k: [e for e, _top in v] for k, v in sp["appended"].items()}
+    aligned = sp["aligned"]
     # row variable holding zeta_interval.start_epoch
     zs_name = None
     rowb = None
@@ -592,9 +631,8 @@ def _lineage_of_stored_rows(ctx, chk, f, flow, kind, tabs, ids_n, offs_n, map_n,
             e = rowb.site.stmt.columns[i_][0]
             if nm and e[0] == "col" and e[2] == "start_epoch" and al.get(e[1], e[1] or "zeta_interval") in ("zeta_interval", None):
                 zs_name = nm
-    series_x = None
-    if series_arg in aligned and isinstance(aligned[series_arg], ast.Tuple) and len(aligned[series_arg].elts) == 2:
-        series_x = aligned[series_arg].elts[0]
+    series_x = sp["x"]
+    series_list = sp["lists"][0] if len(sp["lists"]) == 1 else None
 
     def role(name_node):
         b = binding(name_node)
@@ -687,10 +725,11 @@ def _lineage_of_stored_rows(ctx, chk, f, flow, kind, tabs, ids_n, offs_n, map_n,
         if s.stmt is None or s.stmt.kind != "insert" or s.stmt.table not in tabs:
             continue
         pd = None
-        if isinstance(s.params_node, ast.Dict):
-            pd = {k.value: v for k, v in zip(s.params_node.keys, s.params_node.values) if isinstance(k, ast.Constant)}
-        elif isinstance(s.params_node, (ast.Tuple, ast.List)) and s.stmt.columns_named:
-            pd = None
+        pn = s.params_node
+        if isinstance(pn, (ast.GeneratorExp, ast.ListComp)) and isinstance(pn.elt, ast.Dict):
+            pn = pn.elt          # executemany over a generator of parameter dicts: loop roles come from its generators
+        if isinstance(pn, ast.Dict):
+            pd = {k.value: v for k, v in zip(pn.keys, pn.values) if isinstance(k, ast.Constant)}
         if pd is None:
             chk.indeterminate("C13.O3", where_of(f, s.call), "parameters of the INSERT into %s are not a literal dict" % s.stmt.table)
             continue
